@@ -910,6 +910,25 @@ func runC03(seed int64, n int, tier string, outDir string) (*Report, error) {
 				}
 			}
 		}
+		// only ONE property set, neither id nor type: through the type's own GobEncode / GobDecode pair (which needs no type
+		// name to find the struct) the property must come back - for every property the type does not share with Object,
+		// and for a rotating third of the shared ones in the quick tier
+		for i := 0; i < rt.NumField(); i++ {
+			f := rt.Field(i)
+			if f.Name == "ID" || f.Name == "Type" || (tier != "thorough" && i < objectFields && rt.Name() != "Object" && rt.Name() != "Link" && (i+ki)%3 != 0) {
+				continue
+			}
+			for vi, v := range c03ProbeVals(f.Type) {
+				if vi > 1 && tier != "thorough" {
+					break
+				}
+				pv := reflect.New(rt)
+				pv.Elem().Field(i).Set(reflect.ValueOf(v).Convert(f.Type))
+				rep.Count("probe-bare:" + rt.Name())
+				c.methods(pv.Interface().(ap.Item), fmt.Sprintf("bare %s.%s #%d", rt.Name(), f.Name, vi), false, idx)
+				idx++
+			}
+		}
 		// the struct with nothing set, and with only its type
 		c.item(reflect.New(rt).Interface().(ap.Item), "empty "+rt.Name(), true, idx)
 		c.methods(reflect.New(rt).Interface().(ap.Item), "empty "+rt.Name(), true, idx)
